@@ -1,5 +1,6 @@
 import PeliteModel.Driver.State
 import PeliteModel.Model.Pe
+import PeliteModel.Spec.Pe
 /-! Driver handlers for the operation families that work on the current image. -/
 namespace Pelite.Driver
 open Pelite.Proto Pelite.Pe
@@ -46,7 +47,7 @@ def hdr (img : Option Img) (k : String) : String :=
   withView img k fun v =>
     let cr := v.codeRange
     let ir := v.imageRange
-    s!"ok dos={ref v.dosHeader} dosimg={ref v.dosImage} nt={ref v.ntHeaders} fh={ref v.fileHeader} opt={ref v.optionalHeader} dd={ref v.dataDirectory} sec={ref v.sectionHeaders} himg={ref v.headersImage} csum={v.checkSum} code={cr.1}..{cr.2} image={ir.1}..{ir.2} base={v.imageBase}"
+    s!"ok dos={ref v.dosHeader} dosimg={ref v.dosImage} nt={ref v.ntHeaders} fh={ref v.fileHeader} opt={ref v.optionalHeader} dd={ref v.dataDirectory} sec={ref v.sectionHeaders} himg={ref v.headersImage} csum={v.checkSum} code={cr.1}..{cr.2} image={ir.1}..{ir.2} base={v.imageBase} ## stdcsum={stdPeChecksum v.b}"
 
 def hdrw (img : Option Img) (k : String) : String :=
   withView img k fun v =>
